@@ -27,7 +27,7 @@ class C03(Check):
                    'comment are never compared (parsed content and byte prefixes only)',
                    'the audit hook sees every open() made through the io layer (builtin open / io.open)']
     REQUIRED_COUNTERS = ('append_write_failures', 'unsized_char_histories', 'appends_ok', 'refusals_write_over', 'refusals_append_missing', 'append_empty', 'write_copy',
-                         'rereads_raw', 'prefix_checks', 'audit_open_events', 'lowercase_key_appends', 'array_form_appends', 'append_zero_rows', 'refusals_write_over_empty_file')
+                         'rereads_raw', 'prefix_checks', 'audit_open_events', 'lowercase_key_appends', 'array_form_appends', 'append_zero_rows', 'refusals_write_over_empty_file', 'append_encode_failures')
 
     def setup(self):
         import pydl.pydlutils.yanny as Y
@@ -55,6 +55,13 @@ class C03(Check):
         if rng.random() < 0.3 and cls != 'unsized_char_start':
             enums['STATE_T'] = ['OK', 'FAILED', 'UNKNOWN7']
         names = []
+        # a third of the histories use a few common structure / column names again and again (with freshly drawn declarations):
+        # many files of the same kind in one process - nothing learnt from one file may be applied to the next
+        common = rng.random() < 0.33 and cls != 'unsized_char_start'
+        if common:
+            pool = ['EXPOSURE', 'Obj', 'TAB', 'status']
+            rng.shuffle(pool)
+            names = pool[:ntab]
         while len(names) < ntab:
             nm = M.ident(rng, 2, 7, suffix=False)
             nm = rng.choice([nm.upper(), nm, nm.lower()])
@@ -66,6 +73,12 @@ class C03(Check):
         for nm in names:
             cols = [{'name': 'uid', 'kind': 'i4', 'width': 0, 'alen': 0}] + \
                 M.gen_cols(rng, rng.randint(1, 5), enums=enums or None, used_names={'uid'})
+            if common:
+                cpool = ['a', 'flag', 'mag', 'name', 'x', 'tag']
+                rng.shuffle(cpool)
+                for ci, c in enumerate(cols[1:1 + len(cpool)]):
+                    if c['kind'] != 'enum':
+                        c['name'] = cpool[ci]
             for c in cols:
                 if c['kind'] == 'enum':
                     if c['name'] in enum_cols:
@@ -129,7 +142,7 @@ class C03(Check):
         nkeys = 0
         for step in range(rng.randint(1, 12)):
             op = rng.choice(['rows', 'rows', 'rows', 'pairs', 'both', 'empty', 'copy', 'over', 'over_other', 'missing',
-                             'reread', 'nofilename', 'rows_io_fail', 'over_empty'])
+                             'reread', 'nofilename', 'rows_io_fail', 'over_empty', 'pairs_encode_fail'])
             if op in ('rows', 'both', 'rows_io_fail'):
                 which = rng.sample(range(ntab), rng.randint(1, min(3, ntab)))
                 d = {'op': op, 'tables': [], 'form': rng.choice(['list', 'array', 'list'])}
@@ -145,6 +158,13 @@ class C03(Check):
                     ps.append(self._pair(rng, nkeys, names))
                     nkeys += 1
                 ops.append({'op': 'pairs', 'pairs': ps})
+            elif op == 'pairs_encode_fail':
+                # an append whose LATER lines cannot be encoded (a lone surrogate, what os.fsdecode gives for a stray 8-bit byte in
+                # a file name): nothing of it may reach the file
+                ps = [self._pair(rng, nkeys, names), self._pair(rng, nkeys + 1, names)]
+                nkeys += 2
+                ps[1][1], ps[1][2] = 'calib_v\udce9rifi\udce9.fits', 'str'
+                ops.append({'op': 'pairs_encode_fail', 'pairs': ps})
             elif op == 'reread':
                 ops.append({'op': 'reread', 'raw': (rng.random() < 0.5) if cls != 'raw_histories' else True})
             elif op == 'empty':
@@ -343,6 +363,8 @@ class C03(Check):
                     warnings.simplefilter('always')
                     if op['op'] in ('rows', 'both', 'pairs'):
                         y.append(self._append_arg(model, op))
+                    elif op['op'] == 'pairs_encode_fail':
+                        y.append(self._append_arg(model, op))
                     elif op['op'] == 'rows_io_fail':
                         # the write itself fails (file-size limit reached: a real EFBIG from the OS, as on a full disk)
                         import resource
@@ -418,6 +440,12 @@ class C03(Check):
                 out.expect(not any(m and 'w' in m for p, m in opens), 'audit', '%s: append opened a file for writing' % tag)
                 n_ok_append += 1
                 out.count('appends_ok')
+            elif op['op'] == 'pairs_encode_fail':
+                out.expect(isinstance(exc, UnicodeError), 'io-failure', '%s: append of unencodable text did not raise UnicodeError (%r)' % (tag, exc))
+                out.expect(after == before, 'io-failure', '%s: the failed append changed a file (grew by %d bytes)'
+                           % (tag, sum(len(v) for v in after.values()) - sum(len(v) for v in before.values())))
+                out.count('append_encode_failures')
+                n_refusal += 1
             elif op['op'] == 'rows_io_fail':
                 out.expect(isinstance(exc, OSError), 'io-failure', '%s: append with a failing write did not raise OSError (%r)' % (tag, exc))
                 out.expect(after == before, 'io-failure', '%s: the failed append changed a file' % tag)
